@@ -96,7 +96,8 @@ RECURSIVE Run(_, _, _, _)
 Run(q, st, sn, cap) ==
     IF q = <<>> THEN [st |-> [st EXCEPT !.handled = (st.fired # "err")], seen |-> sn, cbs |-> <<>>, wait |-> FALSE, cap |-> cap]
     ELSE IF Head(q) = "chain" /\ st.fired = "ok"
-         THEN [st |-> st, seen |-> Append(sn, See("chain", st)), cbs |-> Tail(q), wait |-> TRUE, cap |-> cap]
+         THEN \* the result is now the inner Deferred, not a Failure: Twisted clears the unhandled-error marker
+              [st |-> [st EXCEPT !.handled = TRUE], seen |-> Append(sn, See("chain", st)), cbs |-> Tail(q), wait |-> TRUE, cap |-> cap]
          ELSE LET r == Apply(Head(q), st, sn, cap) IN Run(Tail(q), r.st, r.seen, r.cap)
 
 Blocked(st, p, w) == st.fired = "no" \/ p > 0 \/ w
